@@ -14,8 +14,10 @@ INVS = ['TypeOK', 'NoUseAfterFree', 'RefcountBalanced', 'NoStaleSurvives',
 
 
 def consts(impl, threads, mutator, entries, verifying, plans, maxcalls=1,
-           maxframes=3, maxver=4, maxcells=8):
-    return {'Impl': '"%s"' % impl, 'Threads': threads,
+           maxframes=3, maxver=4, maxcells=8, order='snapshot_first',
+           stale=False):
+    return {'VerifyOrder': '"%s"' % order, 'StartStale': tla_bool(stale),
+            'Impl': '"%s"' % impl, 'Threads': threads,
             'Mutator': tla_bool(mutator), 'MaxVer': maxver,
             'MaxCells': maxcells, 'Entries': '<-' + entries,
             'Verifying': tla_bool(verifying), 'Plans': '<-' + plans,
@@ -29,11 +31,11 @@ def tlc(build, v, name, c, dump=False, expect_fail=False, workers=None):
                   workers=workers)
     v.add_tlc(res, name)
     if expect_fail:
-        if res.violated != 'NoUseAfterFree':
+        want = 'NoUseAfterFree' if expect_fail is True else expect_fail
+        if res.violated != want:
             raise MachineryError(
-                'self-test: the model of the pinned C code (borrowed cache '
-                'reference) must violate NoUseAfterFree in %s, TLC said %r'
-                % (name, res.violated))
+                'self-test: the model of the pinned code must violate %s in '
+                '%s, TLC said %r' % (want, name, res.violated))
     elif res.violated:
         raise MachineryError('model-level violation of %s in %s:\n%s' % (
             res.violated, name, '\n'.join(res.trace[:60])))
@@ -64,12 +66,12 @@ def main(pid, tier):
     plans = 'SinglePlans' if tier == 'quick' else 'PairPlans'
     with Build() as build:
         cases = []
-        for verifying in (False, True):
+        for verifying, stale in ((False, False), (True, False), (True, True)):
             for impl in ('c_owned', 'py'):
-                res = tlc(build, v, 'schedules %s verifying=%s %s' % (
-                    impl, verifying, plans),
+                res = tlc(build, v, 'schedules %s verifying=%s%s %s' % (
+                    impl, verifying, ' start-stale' if stale else '', plans),
                     consts(impl, '{1}', False, 'AllEntries', verifying,
-                           plans), dump=(impl == 'c_owned'))
+                           plans, stale=stale), dump=(impl == 'c_owned'))
                 if impl == 'c_owned':
                     for r in res.lines:
                         d = r['done']
@@ -77,6 +79,7 @@ def main(pid, tier):
                         rec = d[0]
                         case = {'entry': rec['entry'],
                                 'verifying': verifying, 'plan': rec['plan'],
+                                'start_stale': stale,
                                 'expect': {'exc': rec['exc'],
                                            'ans': rec['ans'],
                                            'inv': rec['inv'],
@@ -88,9 +91,19 @@ def main(pid, tier):
                             c2 = dict(case)
                             c2['entry'] = 'subs'
                             cases.append(c2)
+            if stale:
+                continue
             tlc(build, v, 'self-test c_pinned verifying=%s' % verifying,
                 consts('c_pinned', '{1}', False, 'AllEntries', verifying,
                        'SinglePlans'), expect_fail=True)
+        # changed() of a verifying lookup as sequenced at the pin (caches
+        # dropped before the generations are read): what is cached during
+        # that read survives under generations that are already newer
+        for impl in ('c_owned', 'py'):
+            tlc(build, v, 'self-test clear_first %s' % impl,
+                consts(impl, '{1}', False, 'AllEntries', True, 'SinglePlans',
+                       order='clear_first', stale=True),
+                expect_fail='NoStaleSurvives')
         # interleavings of lookup threads with a mutator thread
         for verifying in (False, True):
             for impl in ('c_owned', 'py'):
@@ -112,7 +125,7 @@ def main(pid, tier):
         uniq = []
         for c in cases:
             k = json.dumps([c['entry'], c['verifying'], c['plan'],
-                            c['expect']], sort_keys=True)
+                            c['start_stale'], c['expect']], sort_keys=True)
             if k not in seen:
                 seen.add(k)
                 uniq.append(c)
